@@ -31,9 +31,10 @@ def resources(files=(), cmds=()):
 class Scenario:
     """Declared resources + path universe of one query."""
 
-    def __init__(self, name, paths, in_files, in_cmds, out_files, out_cmds, nchunks=1):
+    def __init__(self, name, paths, in_files, in_cmds, out_files, out_cmds, nchunks=1, links=None):
         self.name = name
         self.paths = paths
+        self.links = dict(links or {})      # path -> target path: the path may be a symbolic link to the target (a file, a directory or nothing)
         self.in_files, self.in_cmds, self.out_files, self.out_cmds = in_files, in_cmds, out_files, out_cmds
         self.nchunks = nchunks
         self.state_file = '/p/.zinoma/t.checksums'
@@ -55,6 +56,7 @@ def scenarios(tier):
     s.append(Scenario('same_command_text_in_two_dirs', base + ['/p/in'],
                       [(['/p/in'], None)], [('c', '/p'), ('c', '/q')], [], []))
     s.append(Scenario('single_file', base + ['/p/in'], [(['/p/in'], None)], [], [], []))
+    s.append(Scenario('linked_file_in_input_dir', base + ['/p/src', '/p/src/l', '/t'], [(['/p/src'], None)], [], [], [], links={'/p/src/l': '/t'}))
     s.append(Scenario('overlapping_resources', base + ['/p/d', '/p/d/f'], [(['/p/d'], None), (['/p/d/f', '/p/d'], None)], [], [(['/p/d/f'], None)], []))
     if tier == 'thorough':
         s.append(Scenario('two_files_and_output_dir', base + ['/p/src', '/p/src/a', '/p/src/b', '/p/out', '/p/out/x.o'],
@@ -90,10 +92,23 @@ def listed_spec(world, e, files_res):
     return out
 
 
+def res_mtime(world, e, p):
+    """Modification time seen through p in epoch e (a link shows its target's)."""
+    if p in world.links:
+        return z3.If(world.sym_kind(e, p) == LINK, world.sym_mtime(e, world.links[p]), world.sym_mtime(e, p))
+    return world.sym_mtime(e, p)
+
+
+def res_chunk(world, e, p, j):
+    if p in world.links:
+        return z3.If(world.sym_kind(e, p) == LINK, world.sym_chunk(e, world.links[p], j), world.sym_chunk(e, p, j))
+    return world.sym_chunk(e, p, j)
+
+
 def content_hash(world, e, p):
     h = Hinit
     for j in range(world.nchunks):
-        h = Hstep(h, world.sym_chunk(e, p, j))
+        h = Hstep(h, res_chunk(world, e, p, j))
     return Hfin(h)
 
 
@@ -108,7 +123,7 @@ def unchanged_spec(world, sc, e1, e2):
             a = l1.get(p, z3.BoolVal(False))
             b = l2.get(p, z3.BoolVal(False))
             cs.append(a == b)
-            cs.append(z3.Implies(z3.And(a, b), z3.Or(world.sym_mtime(e1, p) == world.sym_mtime(e2, p), content_hash(world, e1, p) == content_hash(world, e2, p))))
+            cs.append(z3.Implies(z3.And(a, b), z3.Or(res_mtime(world, e1, p) == res_mtime(world, e2, p), content_hash(world, e1, p) == content_hash(world, e2, p))))
     for cmds in (sc.in_cmds, sc.out_cmds):
         for c, d in cmds:
             k1 = 'e%d_%s_%s' % (e1, d, c)
@@ -143,7 +158,7 @@ class TwoRuns:
         self.prog = prog
         self.sc = sc
         self.crash = crash
-        self.world = VfsWorld(sc.paths, nchunks=sc.nchunks, state_files=[sc.state_file], always_dirs=('/', '/p', '/q'))
+        self.world = VfsWorld(sc.paths, nchunks=sc.nchunks, state_files=[sc.state_file], always_dirs=('/', '/p', '/q'), links=sc.links)
         self.I = Interp(prog, self.world, stubs={}, max_paths=int(__import__("os").environ.get("ZX_MAXPATHS","60000")))
         self.I.solver.set('timeout', 30000)
         w = self.world
@@ -346,7 +361,9 @@ def decode_world(world, sc, m, epochs=(0, 1, 2, 3, 4)):
         st = {}
         for p in world.paths:
             k = m.eval(world.sym_kind(e, p), model_completion=True).as_long()
-            ent = {'kind': ['absent', 'file', 'dir'][min(k, 2)]}
+            ent = {'kind': ['absent', 'file', 'dir', 'link'][k]}
+            if k == LINK:
+                ent['target'] = world.links.get(p)
             if k == FILE:
                 ent['mtime'] = m.eval(world.sym_mtime(e, p), model_completion=True).as_long()
                 ent['chunks'] = [m.eval(world.sym_chunk(e, p, j), model_completion=True).as_long() for j in range(world.nchunks)]
